@@ -183,7 +183,7 @@ fn reflink_overwrite(target: &std::path::Path, link: &std::path::Path) -> io::Re
     reflink_into(target, &dest)
 }
 
-/// Reflink `target` to the open file `dest`.
+/// Reflink `target` to the open file `dest`. The file gets the length of `target` as well.
 #[cfg(any(target_os = "linux", target_os = "android"))]
 fn reflink_into(target: &std::path::Path, dest: &fs::File) -> io::Result<()> {
     use nix::request_code_write;
@@ -217,7 +217,10 @@ fn reflink_into(target: &std::path::Path, dest: &fs::File) -> io::Result<()> {
         }
         Err(err)
     } else {
-        Ok(())
+        // The clone shares the data of the source from the beginning of the destination.
+        // What a longer destination had beyond that stays where it was. The lengths differ
+        // when the files were grouped by their transformed contents.
+        dest.set_len(src.metadata()?.len())
     }
 }
 
